@@ -264,7 +264,7 @@ func ruleEsc3(c *Ctx) {
 
 func init() {
 	Register(&Rule{ID: "R-SCAN-2", Props: []string{"C18", "C19"}, Floor: 6,
-		Doc: "the scanner's loops end at the end of the input: in every loop of a lib/parser Scanner method that tests the look-ahead against EOF, the edge on which the character IS EOF leaves the loop (its target is outside the loop body) — at EOF nothing more can be consumed, so a loop that goes on (a `break` that only leaves a switch) never terminates and the parser hangs on an unclosed quote",
+		Doc:      "the scanner's loops end at the end of the input: in every loop of a lib/parser Scanner method that tests the look-ahead against EOF, the edge on which the character IS EOF leaves the loop (its target is outside the loop body) — at EOF nothing more can be consumed, so a loop that goes on (a `break` that only leaves a switch) never terminates and the parser hangs on an unclosed quote",
 		Controls: []string{"CtlEOFBreaksOnlySwitch"},
 		Run:      ruleScan2})
 }
